@@ -188,6 +188,7 @@ func checkC04(P *Program, r *Result, tier string) {
 	}
 	if fn := ms["ReadBinary"]; fn != nil {
 		fa := A.fa(fn)
+		availFacts(fa, fn, append(append([]*ssa.Function{}, fills...), availWrappers(scope, fills)...))
 		bs := fa.sliceDesc(fn.Params[1])
 		for _, ret := range returnsOf(fn) {
 			m := fa.expand(ret.Results[0])
@@ -207,6 +208,10 @@ func checkC04(P *Program, r *Result, tier string) {
 				}
 				// the count reported is the length of the window copied, or what copy itself reports having taken from its start
 				if fa.proveEq(dst.Off, linConst(0), cc.Block()) && fa.proveEq(src.Off, ri0, cc.Block()) && (fa.proveEq(src.Len, m, ret.Block()) || fa.proveEq(fa.expand(cc), m, ret.Block())) {
+					copied = true
+				}
+				// … or the bound sits on the destination: copy(bs[:m], buf[ri:]) with at least m bytes behind the cursor
+				if fa.proveEq(dst.Off, linConst(0), cc.Block()) && fa.proveEq(src.Off, ri0, cc.Block()) && fa.proveEq(dst.Len, m, ret.Block()) && fa.prove(ineqGE(src.Len, m), cc.Block(), rootCtx) {
 					copied = true
 				}
 			}
@@ -319,13 +324,30 @@ func checkC04(P *Program, r *Result, tier string) {
 		}
 	}
 
+	// the wrappers between the exported methods and the fill routines report a count under the same bound
+	for _, fn := range availWrappers(scope, fills) {
+		fa := A.fa(fn)
+		for _, ret := range returnsOf(fn) {
+			v := fa.expand(ret.Results[0])
+			bd, rx := cellSliceAt(fa, ret, "buf"), cellIntAt(fa, ret, "ri")
+			okAvail := bd != nil && rx != nil && fa.prove(ineqLE(v, bd.Len.sub(rx)), ret.Block(), rootCtx)
+			if c := asCall(ret.Results[0]); !okAvail && c != nil {
+				for _, g := range fills {
+					if c.Common().StaticCallee() == g {
+						okAvail = true
+					}
+				}
+			}
+			r.add("SHORT⇒ERR", shortName(fn), "avail", "the count reported is never more than the bytes buffered behind the cursor", P.pos(instrPos(ret)), okAvail, "")
+		}
+	}
 	// ---- SHORT⇒ERR in the fill routine, STICKY, ROOM ----
 	for _, fn := range fills {
 		fa := A.fa(fn)
 		n := fa.expand(fn.Params[1])
 		for _, ret := range returnsOf(fn) {
 			// never more than is buffered: what the callers slice (buf[ri:ri+n]) lies inside the buffer's length
-			{
+			if isInteger(ret.Results[0].Type()) {
 				v := fa.expand(ret.Results[0])
 				bd, rx := cellSliceAt(fa, ret, "buf"), cellIntAt(fa, ret, "ri")
 				okAvail := bd != nil && rx != nil && fa.prove(ineqLE(v, bd.Len.sub(rx)), ret.Block(), rootCtx)
@@ -376,11 +398,32 @@ func checkC04(P *Program, r *Result, tier string) {
 						if !ce.Truth {
 							blk = ce.If.Block().Succs[1]
 						}
+						// the value stored is the source's error, possibly through a join that carries it on every
+						// edge coming from this branch (err kept in a local and stored in a shared tail)
+						carries := func(v ssa.Value) bool {
+							if v == ev {
+								return true
+							}
+							ph, isPhi := v.(*ssa.Phi)
+							if !isPhi {
+								return false
+							}
+							n := 0
+							for i, p := range ph.Block().Preds {
+								if p == blk || blk.Dominates(p) {
+									if ph.Edges[i] != ev {
+										return false
+									}
+									n++
+								}
+							}
+							return n > 0
+						}
 						leak, _ := exitsWithout(blk.Instrs[0], func(in ssa.Instruction) bool {
 							st, ok := in.(*ssa.Store)
-							return ok && recvFieldOf(fn, st.Addr) == "err" && st.Val == ev
+							return ok && recvFieldOf(fn, st.Addr) == "err" && carries(st.Val)
 						})
-						if st, ok := blk.Instrs[0].(*ssa.Store); ok && recvFieldOf(fn, st.Addr) == "err" && st.Val == ev {
+						if st, ok := blk.Instrs[0].(*ssa.Store); ok && recvFieldOf(fn, st.Addr) == "err" && carries(st.Val) {
 							leak = false
 						}
 						if leak {
@@ -706,4 +749,63 @@ func readerCaseSucceeds(fa *FA, rc retCase) bool {
 		return success
 	}
 	return fa.prove(ineqLE(fa.nilExpand(rc.results[len(rc.results)-1]), linConst(0)), rc.at.Block(), rootCtx)
+}
+
+// availWrappers: functions of the reader, other than the fill routines, of shape (r, n int) int that hand on a fill
+// routine's count.
+func availWrappers(scope, fills []*ssa.Function) []*ssa.Function {
+	isFill := map[*ssa.Function]bool{}
+	for _, f := range fills {
+		isFill[f] = true
+	}
+	var out []*ssa.Function
+	for _, f := range scope {
+		if isFill[f] || len(f.Params) != 2 || !isInteger(f.Params[1].Type()) || !typeIsPtrTo(f.Params[0].Type(), "DefaultReader") {
+			continue
+		}
+		res := f.Signature.Results()
+		if res.Len() != 1 || !isInteger(res.At(0).Type()) {
+			continue
+		}
+		calls := false
+		for _, c := range callsIn(f) {
+			if isFill[c.Common().StaticCallee()] {
+				calls = true
+			}
+		}
+		if calls {
+			out = append(out, f)
+		}
+	}
+	return out
+}
+
+// availFacts: what the avail obligations establish for the fill routines and their wrappers is made available where
+// they are called: the count they hand back is at most len(buf) − ri as both are right after the call.
+func availFacts(fa *FA, fn *ssa.Function, fns []*ssa.Function) {
+	is := map[*ssa.Function]bool{}
+	for _, f := range fns {
+		is[f] = true
+	}
+	for _, c := range callsIn(fn) {
+		cc, ok := c.(*ssa.Call)
+		if !ok || !is[cc.Common().StaticCallee()] || len(cc.Common().Args) != 2 || cc.Common().Args[0] != ssa.Value(fn.Params[0]) {
+			continue
+		}
+		blk := cc.Block()
+		idx := instrIndex(cc)
+		if idx+1 >= len(blk.Instrs) {
+			continue
+		}
+		next := blk.Instrs[idx+1]
+		bd, rx := cellSliceAt(fa, next, "buf"), cellIntAt(fa, next, "ri")
+		if bd == nil || rx == nil {
+			continue
+		}
+		v := fa.expand(cc)
+		if id, isAtom := singleAtom(v); isAtom {
+			a := fa.A.at(id)
+			a.Facts = append(a.Facts, ineqLE(v, bd.Len.sub(rx)))
+		}
+	}
 }
